@@ -331,7 +331,62 @@ def h_invvol(run, cfg):
     run.check_near(w['a'] + w['b'], 1.0, 1e-7, 'invvol-sum-one')
 
 
-HARNESSES = {'direct': h_direct, 'random': h_random, 'vol': h_vol, 'vol_window': h_vol_window, 'invvol': h_invvol}
+def h_optimiser_wrapper(run, cfg):
+    """WeighERC / WeighMeanVar hand the user's settings to ffn's optimiser unchanged (the optimiser itself is environment: stubbed, its arguments
+    recorded) and publish its result as the weights"""
+    B = bt()
+    A = B.algos
+    dts = dates(5)
+    data = frame(run, dts, ['a', 'b', 'c'], lambda i, c: {'a': 100.0, 'b': 40.0, 'c': 10.0}[c] * (1 + 0.0625 * ((i * 3 + ord(c)) % 4)))
+    s = B.Strategy('s', [], ['a', 'b', 'c'])
+    s.setup(data)
+    for d in dts:
+        s.update(d)
+    seen = {}
+    out = pd.Series({'a': run.real('wa', 0, 1), 'b': run.real('wb', 0, 1), 'c': 0.125}, dtype=object if run.mode == 'sym' else float)
+
+    def rec(name):
+        def f(returns, **kw):
+            seen[name] = (list(returns.columns), kw)
+            return out
+        return f
+    real_ffn = B.ffn
+
+    class Proxy:
+        def __getattr__(self, k):
+            if k in ('calc_erc_weights', 'calc_mean_var_weights'):
+                return rec(k)
+            return getattr(real_ffn, k)
+    holder = B
+    old_ffn = holder.ffn
+    holder.ffn = Proxy()
+    try:
+        s.temp = {'selected': ['a', 'b', 'c']}
+        iw, rw = [0.5, 0.25, 0.25], [0.625, 0.25, 0.125]
+        A.WeighERC(lookback=pd.DateOffset(days=3), initial_weights=iw, risk_weights=rw, covar_method='standard', risk_parity_method='slsqp',
+                   maximum_iterations=37, tolerance=1e-5)(s)
+        cols, kw = seen['calc_erc_weights']
+        run.check(cols == ['a', 'b', 'c'], 'erc-window-columns', str(cols))
+        for k, v in (('initial_weights', iw), ('risk_weights', rw), ('covar_method', 'standard'), ('risk_parity_method', 'slsqp'), ('maximum_iterations', 37), ('tolerance', 1e-5)):
+            run.check(k in kw and kw[k] is v or kw.get(k) == v, 'erc-setting-passed-through', '%s: %r (given %r)' % (k, kw.get(k), v))
+        w = s.temp['weights']
+        for n in ('a', 'b', 'c'):
+            run.check_near(w[n], out[n], EPS_W, 'erc-weights-are-the-optimiser-result', n)
+        s.temp = {'selected': ['a', 'b', 'c']}
+        bounds = (0.0625, 0.75)
+        A.WeighMeanVar(lookback=pd.DateOffset(days=3), bounds=bounds, covar_method='standard', rf=0.03125)(s)
+        cols, kw = seen['calc_mean_var_weights']
+        run.check(cols == ['a', 'b', 'c'], 'meanvar-window-columns', str(cols))
+        for k, v in (('weight_bounds', bounds), ('covar_method', 'standard'), ('rf', 0.03125)):
+            run.check(kw.get(k) == v, 'meanvar-setting-passed-through', '%s: %r (given %r)' % (k, kw.get(k), v))
+        w = s.temp['weights']
+        for n in ('a', 'b', 'c'):
+            run.check_near(w[n], out[n], EPS_W, 'meanvar-weights-are-the-optimiser-result', n)
+    finally:
+        holder.ffn = old_ffn
+
+
+HARNESSES = {'optimiser_wrapper': h_optimiser_wrapper, 'direct': h_direct, 'random': h_random, 'vol': h_vol, 'vol_window': h_vol_window, 'invvol': h_invvol}
 WITNESS_CAP = {'quick': 150, 'thorough': 300}
 
 
@@ -351,6 +406,10 @@ def plan(tier):
         for bounds, total in (((0.0, 1.0), 1), ((0.125, 0.5), 1), ((-0.5, 0.75), 0.5), ((0.0, 0.25), 1)):
             tasks.append(dict(harness='random', cfg=dict(n=n, bounds=list(bounds), total=total), opts=opts))
     vopts = dict(max_paths=2000, timeout_ms=20000)
+    tasks.append(dict(harness='optimiser_wrapper', cfg={}, opts=opts))
+    for n in (2, 3):
+        tasks.append(dict(harness='random', cfg=dict(n=n, bounds=[-0.5, 0.5], total=0), opts=opts))
+        tasks.append(dict(harness='random', cfg=dict(n=n, bounds=[-1.0, 0.25], total=-0.5), opts=opts))
     for w in ((0.5, 0.5), (0.75, -0.25)):
         for T in (0.125, 0.25):
             tasks.append(dict(harness='vol', cfg=dict(algo='TargetVol', w=list(w), target=T, deg_limit=8), opts=vopts))
